@@ -66,16 +66,23 @@ PacketAt(e, i, p) ==
               THEN tn.p + 16 + raw ELSE -1
 RECURSIVE Walk(_, _, _)
 Walk(e, i, p) == IF p < 0 THEN -1 ELSE IF i > Len(e.packets) THEN p ELSE Walk(e, i + 1, PacketAt(e, i, p))
-StreamOK(e) ==
+\* Below SettingsAsStrings the protocol carries settings in a typed binary form the library does not write: a Query
+\* packet there carries the caller's settings only if there are none
+SettingsCarried(e) == e.rev >= SettingsAsStrings \/ Get(e.fields, "settings") = <<>>
+StreamBytesOK(e) ==
   LET q == EncMsg("Query", e.rev, e.fields) IN
   /\ e.err = "nil"
   /\ Len(e.stream) >= Len(q) /\ SubSeq(e.stream, 1, Len(q)) = q
   /\ (e.compressed => Len(e.frames) = Len(e.packets))
   /\ Walk(e, 1, Len(q)) = Len(e.stream)          \* the packets in order, and nothing else
 
+StreamOK(e) == StreamBytesOK(e) /\ SettingsCarried(e)
+
 LineOK == CASE Ev.ev = "Handshake" -> HandshakeOK(Ev) [] Ev.ev = "ClientStream" -> StreamOK(Ev) [] OTHER -> FALSE
+\* (why a stream was rejected, when the only thing wrong with it is that the caller's settings are not in it)
+Reason == IF Ev.ev = "ClientStream" /\ StreamBytesOK(Ev) /\ ~SettingsCarried(Ev) THEN "settings-dropped" ELSE ""
 Init == l = 1
-Next == l <= Len(Trace) /\ l' = l + 1 /\ (LineOK \/ PrintT(<<"REJECT", l>>))
+Next == l <= Len(Trace) /\ l' = l + 1 /\ (LineOK \/ PrintT(<<"REJECT", l, Reason>>))
 TSpec == Init /\ [][Next]_l
 HW == TLCSet(1, IF TLCGet(1) < l THEN l ELSE TLCGet(1))
 Accepted == PrintT(<<"HWM", TLCGet(1)>>) /\ TLCGet(1) = Len(Trace) + 1
